@@ -257,7 +257,7 @@ func C11(c *sim.Ctx) {
 		// the run must still replay in the same process)
 		timeout = 5 * time.Second
 	}
-	if poisoned() && (timeout > 0 || (hangProne && hangsSeen >= maxHangsPerProcess)) {
+	if poisoned() && (timeout > 0 || (hangProne && hangsLeft >= maxHangsLeftBehind)) {
 		c.Inconclusive++
 		return
 	}
@@ -297,6 +297,7 @@ func C11(c *sim.Ctx) {
 
 	var res callResult
 	obs := &observed{}
+	joined := false
 	shape := "other"
 	if len(cl.cands) > 0 && cl.structured {
 		shape = "single"
@@ -317,16 +318,51 @@ func C11(c *sim.Ctx) {
 			c.Probe("unserialisable_result_single")
 		}
 	}
-	// hang: the server can make no further step and the call has not returned. Its goroutines cannot
-	// be joined; they are left behind (wait.go).
+	done := make(chan callResult, 1)
+	isDone := func() bool { return len(done) > 0 }
+	// hang: the server can make no further step and the call has not returned (or has returned and
+	// left a goroutine stuck for ever). That is the verdict; what follows in this function is
+	// clean-up, so that the next run finds a quiet bubble (wait.go): get goroutines that are stuck on
+	// a mutex moving by unlocking it for whoever left it locked, release every handler, join. If that
+	// does not bring the call back, its goroutines are left behind and the process is poisoned.
 	hang := func(key, format string, a ...any) {
 		cancel()
-		rec.releaseAll()
 		noteUnser()
-		poison(c)
+		recovered := false
+		rounds := 200
+		if c.Knobs["no_unstick"] != "" { // experiment aid: exercise the fallback (goroutines left behind)
+			rounds = 0
+		}
+		for round := 0; round < rounds; round++ {
+			released := rec.releaseAll()
+			_, locked := settle(c, never, 0)
+			if locked > 0 {
+				if n, ok := unstickOnce(); !ok || n == 0 {
+					break
+				}
+				continue
+			}
+			if isDone() {
+				recovered = true
+				break
+			}
+			if keys, _ := rec.parkedGroups(); released == 0 && len(keys) == 0 {
+				break // everything is durably blocked and nothing is left to release
+			}
+		}
+		if recovered {
+			<-done
+			joined = true
+			rec.releaseAll()
+			if r := poolWait(srv); r != nil {
+				recovered = false // (cannot happen after a successful join; never hide the hang behind it)
+			}
+		}
+		if !recovered {
+			poison(c)
+		}
 		c.Fail("hang", key+"("+shape+")", format, a...)
 	}
-	joined := false
 	finish := func() {
 		// join everything this run started
 		if joined {
@@ -344,8 +380,6 @@ func C11(c *sim.Ctx) {
 		}
 	}
 
-	done := make(chan callResult, 1)
-	isDone := func() bool { return len(done) > 0 }
 	if careful {
 		markForeign()
 	}
